@@ -11,6 +11,7 @@ import (
 	"go/token"
 	"go/types"
 	"io"
+	"math/rand"
 	"os"
 	"regexp"
 	"sort"
@@ -92,6 +93,7 @@ type run struct {
 	trace     []string
 	tracing   bool
 	traces    []traceRec
+	syncMaps  map[*value]map[string]value
 	onceDone  map[*value]bool
 	syncIDs   map[*value]int
 	syncLog   []syncEv
@@ -356,6 +358,7 @@ type engine struct {
 	maxPaths           int
 	maxSeconds         int
 	qlogDir            string
+	seed               int64
 	workers            int
 	solverBin          string
 	solverTimeout      int
@@ -447,6 +450,9 @@ func (e *engine) explore(entry *ssa.Function, args []value, qlog func(int) *stri
 	cond := sync.NewCond(&mu)
 	inconcl := map[string]int{}
 	violKey := map[string]bool{}
+	violSeen := map[string]int{}
+	altViol := map[string][]obligRec{}
+	rng := rand.New(rand.NewSource(e.seed + 1))
 	traceSeen := map[string]bool{}
 
 	worker := func(id int) {
@@ -509,11 +515,19 @@ func (e *engine) explore(entry *ssa.Function, args []value, qlog func(int) *stri
 				case "violated":
 					fk, _ := json.Marshal(o.Facts)
 					k := o.Kind + "|" + o.Label + "|" + o.Detail + "|" + string(fk)
-					if !violKey[k] || len(res.Violated) < 8 {
-						if !violKey[k] {
-							res.Violated = append(res.Violated, o)
-						}
+					if !violKey[k] {
 						violKey[k] = true
+						res.Violated = append(res.Violated, o)
+					} else {
+						// further counterexamples of the same obligation: a
+						// reservoir sample, so that the replay has alternatives
+						violSeen[o.Label]++
+						n := violSeen[o.Label]
+						if len(altViol[o.Label]) < 12 {
+							altViol[o.Label] = append(altViol[o.Label], o)
+						} else if j := int(rng.Int63n(int64(n))); j < 12 {
+							altViol[o.Label][j] = o
+						}
 					}
 				default:
 					if len(res.Unknown) < 20 {
@@ -584,6 +598,9 @@ func (e *engine) explore(entry *ssa.Function, args []value, qlog func(int) *stri
 	}
 	e.mu.Unlock()
 	sort.Strings(res.Covers)
+	for _, l := range altViol {
+		res.Violated = append(res.Violated, l...)
+	}
 	if len(res.Traces) > 0 {
 		e.composeRaces(res)
 	}
@@ -618,6 +635,7 @@ func (e *engine) runPath(sol *Solver, entry *ssa.Function, args []value, prefix 
 		funcs:      map[*ssa.Function]bool{},
 		facts:      map[string]string{},
 		maxLen:     e.maxLen,
+		syncMaps:   map[*value]map[string]value{},
 		onceDone:   map[*value]bool{},
 		names:      map[*value]string{},
 		twins:      map[*Term]*Term{},
